@@ -302,6 +302,20 @@ def c02_e(ctx: Ctx):
     if not out:
         out.append(ctx.inc(R, fi, fi.node, "no Job(..., directory_known=True) return found in open_job"))
     # abbreviated ids: a unique match is taken, several matches raise LookupError, none raises KeyError
+    idlen0 = ctx.fold(ast.Name(id="JOB_ID_LENGTH", ctx=ast.Load()), fi)
+    for tnode in [n for n in body_nodes(fi) if isinstance(n, ast.Compare) and len(n.ops) == 1 and common.pmatch("len(X) < N", n) is not None]:
+        b = common.pmatch("len(X) < N", tnode)
+        if canon(b["X"]) != idp:
+            continue
+        nv = ctx.fold(b["N"], fi)
+        kt = OPEN + "|abbreviation-threshold" if "OPEN" in globals() else fi.qual + "|abbreviation-threshold"
+        if isinstance(nv, int) and isinstance(idlen0, int) and nv != idlen0:
+            out.append(ctx.viol(R, fi, tnode, f"ids shorter than {nv} characters are treated as abbreviations, but ids have {idlen0}: a unique prefix of {nv}..{idlen0 - 1} characters is taken for a "
+                                "full id and raises KeyError instead of resolving", construct=kt))
+        elif isinstance(nv, int):
+            out.append(ctx.ok(R, fi, tnode, f"every id shorter than JOB_ID_LENGTH = {idlen0} is resolved as an abbreviation", construct=kt))
+        else:
+            out.append(ctx.inc(R, fi, tnode, f"abbreviation threshold {canon(b['N'])} does not fold", construct=kt))
     colls = set()
     for n in cfg.stmt_nodes():
         a = n.ast
